@@ -6,12 +6,18 @@
    (C17_ok_reaches_eof: a lexical failure ends the parse with an error).  The grammar itself is
    Spec/Syntax.v (`ast_program`); "accepted iff derivable, and then the code is the code generator's" is
    theorem T2, proved (C17_accepts_iff for token lists, C17_source for source texts, C17_code for the code of
-   accepted texts; C17_fuel: the parser's recursion fuel is never the reason for a rejection); C17_resync (a later faulty statement still gets its own diagnostic) is validated by
-   the differential run only. *)
+   accepted texts; C17_fuel: the parser's recursion fuel is never the reason for a rejection); resynchronisation is proved in Proofs/DiagProofs.v: every reporting primitive appends exactly one diagnostic
+   whatever the panic flag (C17_error_appends_one: parse.go does NOT silence errors in panic mode, so one faulty
+   statement may produce several diagnostics -- C17_cascade_example -- which the property allows); `sync` stops at
+   the first token that is a statement keyword or the end and changes nothing but the token cursor
+   (C17_sync_spec); every toplevel statement starts with the panic flag cleared, at depth 0, on a non-end token
+   (C17_statements_start_clean), and a statement that ends in panic has added at least one diagnostic of its own
+   (C17_rejected_is_reported): a later faulty statement always gets its own diagnostic. *)
 From BCL Require Import Model.Api Proofs.LineCalcProofs Proofs.LexerProofs Proofs.ParserInvProofs.
 Open Scope N_scope.
 From BCL Require Import Model.Compile Spec.Syntax Proofs.T2Expr Proofs.T2Proofs Proofs.Language.
 From BCL Require Import Proofs.ParserTotal.
+From BCL Require Import Model.Parser Proofs.DiagProofs.
 
 Theorem C17_error_iff_log : forall ts,
   hadError (parse_tokens ts) = true <-> log (parse_tokens ts) <> [].
@@ -101,6 +107,54 @@ Theorem C17_parser_total : forall ts, lex_shape ts ->
   oof (parse_tokens ts) = false /\ ppanic (parse_tokens ts) = false.
 Proof. first [exact ParserTotal.parser_total | apply ParserTotal.parser_total]. Qed.
 Print Assumptions C17_parser_total.
+
+Theorem C17_error_appends_one : forall s,
+  (forall t m, exists d, log (error_at t m s) = d :: log s /\ d_pos d = tpos t /\ d_msg d = m /\
+     panicMode (error_at t m s) = true /\ hadError (error_at t m s) = true) /\
+  (forall m, exists d, log (perror m s) = d :: log s /\ d_pos d = tpos (prev s) /\ d_msg d = m /\
+     panicMode (perror m s) = true /\ hadError (perror m s) = true) /\
+  (forall m, exists d, log (error_at_current m s) = d :: log s /\ d_pos d = tpos (cur_ s) /\ d_msg d = m /\
+     panicMode (error_at_current m s) = true /\ hadError (error_at_current m s) = true) /\
+  (forall m, exists d, log (perr m s) = d :: log s /\ d_pos d = tpos (prev s) /\ d_msg d = bs m /\
+     panicMode (perr m s) = true /\ hadError (perr m s) = true) /\
+  (forall m, exists d, log (perrc m s) = d :: log s /\ d_pos d = tpos (cur_ s) /\ d_msg d = bs m /\
+     panicMode (perrc m s) = true /\ hadError (perrc m s) = true).
+Proof. first [exact DiagProofs.error_appends_one | apply DiagProofs.error_appends_one]. Qed.
+Print Assumptions C17_error_appends_one.
+
+Theorem C17_sync_spec : forall f s, J s -> (len s + 1 <= f)%nat ->
+  exists skipped t rest, sync_rel false s (sync f s) skipped t rest.
+Proof. first [exact DiagProofs.sync_spec | apply DiagProofs.sync_spec]. Qed.
+Print Assumptions C17_sync_spec.
+
+Theorem C17_sync_spec_clean : forall f s, J s -> (len s + 1 <= f)%nat ->
+  exists skipped t rest,
+    cur_ s :: toks s = skipped ++ t :: rest /\
+    Forall (fun x => sync_stop x = false) skipped /\ sync_stop t = true /\
+    cur_ (sync f s) = t /\ toks (sync f s) = rest /\
+    (Forall (fun x => isERR x = false) (tl skipped) ->
+       panicMode (sync f s) = false /\ log (sync f s) = log s /\ hadError (sync f s) = hadError s /\
+       prev (sync f s) = last skipped (prev s)) /\
+    st_tokens (sync f s) = st_tokens s + N.of_nat (length skipped) /\
+    EF s (sync f s).
+Proof. first [exact DiagProofs.sync_spec_clean | apply DiagProofs.sync_spec_clean]. Qed.
+Print Assumptions C17_sync_spec_clean.
+
+Theorem C17_statements_start_clean : forall ts, lex_shape ts ->
+  Forall start_clean (top_starts (parse_fuel ts) (advance (init_pst ts))).
+Proof. first [exact DiagProofs.toplevel_statements_start_clean | apply DiagProofs.toplevel_statements_start_clean]. Qed.
+Print Assumptions C17_statements_start_clean.
+
+Theorem C17_rejected_is_reported : forall f s,
+  panicMode s = false -> panicMode (decl_core f s) = true ->
+  (length (log s) < length (log (decl_core f s)))%nat /\
+  (length (log s) < length (log (decl (S f) s)))%nat /\ hadError (decl (S f) s) = true.
+Proof. first [exact DiagProofs.statement_rejected_is_reported | apply DiagProofs.statement_rejected_is_reported]. Qed.
+Print Assumptions C17_rejected_is_reported.
+
+Theorem C17_log_only_grows : forall ts, step_ok (init_pst ts) (parse_tokens ts).
+Proof. first [exact DiagProofs.parse_tokens_step_ok | apply DiagProofs.parse_tokens_step_ok]. Qed.
+Print Assumptions C17_log_only_grows.
 
 Example C17_example :
   pr_ok (parse_whole (bs "f") (bs "var x = 1 def b { y = x; z = (y = 2) } print x; bind b -> struct")) = true
